@@ -46,11 +46,11 @@ THEOREMS["C16"] = [("Flurry.Props.C16", [
 THEOREMS["C17"] = [("Flurry.Props.C17", [
     "Flurry.C17.inserting_needs_send_sync", "Flurry.C17.lookup_unbounded", "Flurry.C17.binentry_conditional"])]
 
-THEOREMS["C01"] = [("Flurry.Props.C01BinK", ["Flurry.Proto.BinK.binK_linearizable", "Flurry.Proto.BinK.binK_linearizable_quiescent", "Flurry.Proto.BinK.binK_inv", "Flurry.Proto.BinK.conversion_abs_invariant", "Flurry.Proto.BinK.quiescent_tree_eq_list", "Flurry.Proto.BinK.noCheck_refutes"]), ("Flurry.Props.C01BinU", ["Flurry.Proto.BinU.binu_linearizable", "Flurry.Proto.BinU.binu_linearizable_quiescent", "Flurry.Proto.BinU.binu_inv", "Flurry.Proto.BinU.tree_eq_list_unlocked", "Flurry.Proto.BinU.binu_f8order_not_linearizable", "Flurry.Proto.BinU.remove_locks_before_unlink", "Flurry.Proto.BinU.insert_locks_before_prepend"]), ("Flurry.Props.C01Local", ["Flurry.C01.locality", "Flurry.C01.locality_converse", "Flurry.C01.locality_iff", "Flurry.C01.untouched_key_unchanged"]), ("Flurry.Props.C01Source", ["Flurry.C01Source.every_bin_lock_is_rechecked", "Flurry.C01Source.lock_sites_present", "Flurry.C01Source.clear_waits_for_commit"]), ("Flurry.Props.C10", ["Flurry.C10.fill_then_forward_then_retire"]), ("Flurry.Props.C13", ["Flurry.C13.wrappers_delegate_by_name"]), ("Flurry.Props.C01Bin", ["Flurry.Proto.Bin.bin_linearizable", "Flurry.Proto.Bin.bin_linearizable_quiescent", "Flurry.Proto.Bin.bin_linearizable_writers", "Flurry.Proto.Bin.writers_mutex", "Flurry.Proto.Bin.writerStore_spec", "Flurry.Proto.Bin.reachable_inv"]), ("Flurry.Props.C01BinW", ["Flurry.Proto.BinW.binw_linearizable", "Flurry.Proto.BinW.binw_linearizable_quiescent", "Flurry.Proto.BinW.storeAt_eq_writerStore_reachable", "Flurry.Proto.BinW.walkers_mutex", "Flurry.Proto.BinW.binw_simulated"]), ("Flurry.Props.C01BinX", ["Flurry.Proto.BinX.binx_linearizable_quiescent", "Flurry.Proto.BinX.binx_linearizable", "Flurry.Proto.BinX.binx_linearizable_writers", "Flurry.Proto.BinX.transfer_abs_invariant", "Flurry.Proto.BinX.validated_mutex", "Flurry.Proto.BinX.resize_facts", "Flurry.Proto.BinX.chains_wellformed"]), ("Flurry.Lemmas.BinXExamples", ["Flurry.Proto.BinX.noCheck_refutes"]), ("Flurry.Lemmas.BinXCExamples", ["Flurry.Proto.BinXC.binxc_linearizable_quiescent", "Flurry.Proto.BinXC.binxc_linearizable", "Flurry.Proto.BinXC.retired_unreachable", "Flurry.Proto.BinXC.retired_dead", "Flurry.Proto.BinXC.validated_mutex", "Flurry.Proto.BinXC.new_table_after_moved", "Flurry.Proto.BinXC.noWait_retires_reachable", "Flurry.Proto.BinXC.noWait_not_linearizable"]), ("Flurry.Props.C01BinT", ["Flurry.Proto.BinT.bint_linearizable_quiescent", "Flurry.Proto.BinT.bint_linearizable", "Flurry.Proto.BinT.bint_linearizable_writers", "Flurry.Proto.BinT.bint_inv", "Flurry.Proto.BinT.remove_locks_before_unlink", "Flurry.Proto.BinT.insert_locks_before_prepend", "Flurry.Proto.BinT.bint_not_linearizable", "Flurry.Proto.BinT.not_bint_linearizable_quiescent"]), ("Flurry.Lemmas.BinWExamples", ["Flurry.Proto.BinW.noCheck_not_linearizable_doubleRemove", "Flurry.Proto.BinW.noCheck_not_linearizable_lostInsert", "Flurry.Proto.BinW.noCheck_refutes"]), ("Flurry.Props.C01", [
+THEOREMS["C01"] = [("Flurry.Props.C01TableK", ["Flurry.Proto.TableK.tableK_map_linearizable", "Flurry.Proto.TableK.tableK_key_linearizable", "Flurry.Proto.TableK.tableK_key_linearizable_ext", "Flurry.Proto.TableK.tableK_bin_reachable", "Flurry.Proto.TableK.tableK_tick_is_bin_step", "Flurry.Proto.TableK.tableK_key_in_own_bin", "Flurry.Proto.TableK.tableK_other_bin_silent", "Flurry.Proto.TableK.tableK_one_bin_per_thread", "Flurry.Proto.TableK.tableK_proj_eq", "Flurry.Proto.TableK.tableK_inv_le_resp", "Flurry.Proto.TableK.bins_length"]), ("Flurry.Props.C01BinK", ["Flurry.Proto.BinK.binK_linearizable", "Flurry.Proto.BinK.binK_linearizable_quiescent", "Flurry.Proto.BinK.binK_inv", "Flurry.Proto.BinK.conversion_abs_invariant", "Flurry.Proto.BinK.quiescent_tree_eq_list", "Flurry.Proto.BinK.noCheck_refutes"]), ("Flurry.Props.C01BinU", ["Flurry.Proto.BinU.binu_linearizable", "Flurry.Proto.BinU.binu_linearizable_quiescent", "Flurry.Proto.BinU.binu_inv", "Flurry.Proto.BinU.tree_eq_list_unlocked", "Flurry.Proto.BinU.binu_f8order_not_linearizable", "Flurry.Proto.BinU.remove_locks_before_unlink", "Flurry.Proto.BinU.insert_locks_before_prepend"]), ("Flurry.Props.C01Local", ["Flurry.C01.locality", "Flurry.C01.locality_converse", "Flurry.C01.locality_iff", "Flurry.C01.untouched_key_unchanged"]), ("Flurry.Props.C01Source", ["Flurry.C01Source.every_bin_lock_is_rechecked", "Flurry.C01Source.lock_sites_present", "Flurry.C01Source.clear_waits_for_commit"]), ("Flurry.Props.C10", ["Flurry.C10.fill_then_forward_then_retire"]), ("Flurry.Props.C13", ["Flurry.C13.wrappers_delegate_by_name"]), ("Flurry.Props.C01Bin", ["Flurry.Proto.Bin.bin_linearizable", "Flurry.Proto.Bin.bin_linearizable_quiescent", "Flurry.Proto.Bin.bin_linearizable_writers", "Flurry.Proto.Bin.writers_mutex", "Flurry.Proto.Bin.writerStore_spec", "Flurry.Proto.Bin.reachable_inv"]), ("Flurry.Props.C01BinW", ["Flurry.Proto.BinW.binw_linearizable", "Flurry.Proto.BinW.binw_linearizable_quiescent", "Flurry.Proto.BinW.storeAt_eq_writerStore_reachable", "Flurry.Proto.BinW.walkers_mutex", "Flurry.Proto.BinW.binw_simulated"]), ("Flurry.Props.C01BinX", ["Flurry.Proto.BinX.binx_linearizable_quiescent", "Flurry.Proto.BinX.binx_linearizable", "Flurry.Proto.BinX.binx_linearizable_writers", "Flurry.Proto.BinX.transfer_abs_invariant", "Flurry.Proto.BinX.validated_mutex", "Flurry.Proto.BinX.resize_facts", "Flurry.Proto.BinX.chains_wellformed"]), ("Flurry.Lemmas.BinXExamples", ["Flurry.Proto.BinX.noCheck_refutes"]), ("Flurry.Lemmas.BinXCExamples", ["Flurry.Proto.BinXC.binxc_linearizable_quiescent", "Flurry.Proto.BinXC.binxc_linearizable", "Flurry.Proto.BinXC.retired_unreachable", "Flurry.Proto.BinXC.retired_dead", "Flurry.Proto.BinXC.validated_mutex", "Flurry.Proto.BinXC.new_table_after_moved", "Flurry.Proto.BinXC.noWait_retires_reachable", "Flurry.Proto.BinXC.noWait_not_linearizable"]), ("Flurry.Props.C01BinT", ["Flurry.Proto.BinT.bint_linearizable_quiescent", "Flurry.Proto.BinT.bint_linearizable", "Flurry.Proto.BinT.bint_linearizable_writers", "Flurry.Proto.BinT.bint_inv", "Flurry.Proto.BinT.remove_locks_before_unlink", "Flurry.Proto.BinT.insert_locks_before_prepend", "Flurry.Proto.BinT.bint_not_linearizable", "Flurry.Proto.BinT.not_bint_linearizable_quiescent"]), ("Flurry.Lemmas.BinWExamples", ["Flurry.Proto.BinW.noCheck_not_linearizable_doubleRemove", "Flurry.Proto.BinW.noCheck_not_linearizable_lostInsert", "Flurry.Proto.BinW.noCheck_refutes"]), ("Flurry.Props.C01", [
     "Flurry.C01.certificate_sound", "Flurry.C01.decision_correct", "Flurry.C01.not_linearizable_iff",
     "Flurry.C01.linearization_points", "Flurry.C01.no_resurrection", "Flurry.C01.reads_pure",
     "Flurry.C01.insert_then_read", "Flurry.C01.remove_then_read", "Flurry.C01.final_read"])]
-THEOREMS["C08"] = [("Flurry.Props.C01BinK", ["Flurry.Proto.BinK.binK_linearizable_quiescent", "Flurry.Proto.BinK.noCheck_refutes"]), ("Flurry.Props.C01BinU", ["Flurry.Proto.BinU.binu_linearizable_quiescent"]), ("Flurry.Props.C01Local", ["Flurry.C01.locality"]), ("Flurry.Props.C01Source", ["Flurry.C01Source.every_bin_lock_is_rechecked", "Flurry.C01Source.lock_sites_present", "Flurry.C01Source.clear_waits_for_commit"]), ("Flurry.Props.C13", ["Flurry.C13.wrappers_delegate_by_name"]), ("Flurry.Props.C01Bin", ["Flurry.Proto.Bin.bin_linearizable", "Flurry.Proto.Bin.bin_linearizable_quiescent", "Flurry.Proto.Bin.writers_mutex"]), ("Flurry.Props.C01BinW", ["Flurry.Proto.BinW.binw_linearizable_quiescent", "Flurry.Proto.BinW.storeAt_eq_writerStore_reachable"]), ("Flurry.Props.C01BinT", ["Flurry.Proto.BinT.bint_linearizable_quiescent"]), ("Flurry.Props.C08", [
+THEOREMS["C08"] = [("Flurry.Props.C01TableK", ["Flurry.Proto.TableK.tableK_map_linearizable"]), ("Flurry.Props.C01BinK", ["Flurry.Proto.BinK.binK_linearizable_quiescent", "Flurry.Proto.BinK.noCheck_refutes"]), ("Flurry.Props.C01BinU", ["Flurry.Proto.BinU.binu_linearizable_quiescent"]), ("Flurry.Props.C01Local", ["Flurry.C01.locality"]), ("Flurry.Props.C01Source", ["Flurry.C01Source.every_bin_lock_is_rechecked", "Flurry.C01Source.lock_sites_present", "Flurry.C01Source.clear_waits_for_commit"]), ("Flurry.Props.C13", ["Flurry.C13.wrappers_delegate_by_name"]), ("Flurry.Props.C01Bin", ["Flurry.Proto.Bin.bin_linearizable", "Flurry.Proto.Bin.bin_linearizable_quiescent", "Flurry.Proto.Bin.writers_mutex"]), ("Flurry.Props.C01BinW", ["Flurry.Proto.BinW.binw_linearizable_quiescent", "Flurry.Proto.BinW.storeAt_eq_writerStore_reachable"]), ("Flurry.Props.C01BinT", ["Flurry.Proto.BinT.bint_linearizable_quiescent"]), ("Flurry.Props.C08", [
     "Flurry.C08.counter_no_lost_update", "Flurry.C08.absent_not_applied", "Flurry.C08.replaces_what_it_read",
     "Flurry.C08.removal_is_atomic"])]
 
@@ -253,6 +253,10 @@ CONC_TAGS = {
     "tree-list": ["C06", "C01", "C07"],
     # a call that only removes initiated a resize (finding F10)
     "removal-grows": ["C14"],
+    # linearization points witnessed on the real structure: the abstract content ("what a lookup
+    # started now would find") changed at a write that is not the effect of a call on that key, or
+    # not as the specification says, or a call's result fits no state its key had during the call
+    "abs-point": ["C01"],
 }
 
 
@@ -262,6 +266,17 @@ def conc_props_of(f):
     ps = list(CONC_TAGS.get(tag, ["C01"]))
     if tag == "lin" and ("cipinc" in f or "ciprm" in f):
         ps.append("C08")
+    if tag == "abs-point":
+        if re.search(r"`cip(inc|rm|panic) ", f):
+            ps.append("C08")
+        if "not the key of the call" in f or "does not update the map" in f or "outside any call" in f:
+            # moving / converting / initialising bins changed the content: resize (C10), what an
+            # iterator can see (C07), and reads must not write (C12)
+            ps += ["C10", "C07", "C05"]
+        if "retain removes only" in f:
+            ps.append("C13")
+        if "panic" in f:
+            ps.append("C18")
     if tag == "quiescent" and re.search(r"size_ctl|next_table|forwarding", f):
         ps.append("C10")
     if tag == "quiescent" and re.search(r"power of two|longer than|size_ctl=\d+ but", f):
@@ -362,7 +377,7 @@ def _conc_step_one(R, prop, extra_args=None, cases=None, suite="conc"):
     t = TIERS[R.tier]
     n = cases or t["conc_cases"]
     rounds = [(R.seed, n)]
-    agg = {"cases": 0, "steps": 0, "ops": 0, "keys_checked": 0, "distinct_nontrivial": 0, "runs_with_lock_contention": 0,
+    agg = {"cases": 0, "steps": 0, "ops": 0, "abs_points_witnessed": 0, "abs_reads_explained": 0, "certificates_from_witnessed_points": 0, "keys_checked": 0, "distinct_nontrivial": 0, "runs_with_lock_contention": 0,
            "runs_with_resize": 0, "runs_ending_with_tree_bin": 0, "hook_sites": 0, "certificates_validated_by_lean": 0}
     samples, searched, cert_bad = [], False, []
     base = os.path.join(C.BUILD, "run", "%s-%d" % (suite, os.getpid()))
